@@ -23,6 +23,11 @@ def cases(tier, seed):
                                     payloads=("random", "special", "nearconst"))
     for i, c in enumerate(cs):
         c["sel_seed"] = seed * 43 + i
+        if i % 10 == 7:      # a header written with six significant digits: cell sizes whose ratios are not exactly 2
+            c["gen"]["aniso"] = [1.0 / 30, 1.0 / 15]      # (0.0333333 / 0.0166667 = 1.999996)
+            c["gen"]["nlevels"] = 3 if c["gen"]["bf"] <= 2 else max(2, c["gen"]["nlevels"])
+            c["gen"].pop("length_scale", None); c["gen"].pop("origin", None)
+            c["fmt"]["floatfmt"] = "6g"
     if tier == "thorough":
         cs.append({"asset": "example_plt_2d", "sel_seed": seed})
         cs.append({"kind": "repo_suite", "sel_seed": seed})
@@ -194,10 +199,23 @@ def run_case(case, work, rec):
                         probs.append("grid_level differs from the level map")
                     if not refparse.biteq(o1["grid_level"], o2["grid_level"]):
                         probs.append("grid_level depends on uninitialised memory")
+                # the cell centres of the grid *as the Header states it* (a header written with six significant digits
+                # states other cell sizes than the model was generated with)
+                try:
+                    hd = refparse.parse_header(path)
+                    h_low, h_high, h_dx = hd["geo_low"], hd["geo_high"], hd["dx"]
+                except Exception:
+                    h_low, h_high, h_dx = m.geo_low, m.geo_high, m.dx
                 for ax, d in (("x", 0), ("y", 1)):
-                    exp = m.geo_low[d] + (np.arange(m.grid_sizes[L][d]) + 0.5) * m.dx[L][d]
+                    n_ = m.grid_sizes[L][d]
+                    exp = h_low[d] + (np.arange(n_) + 0.5) * h_dx[L][d]
+                    # a rounded header states the grid twice (cell size; domain bounds / cell count) and the two do not
+                    # agree to the last digit: anything between the two readings is "the cell centres" (a wrong cell
+                    # is off by half a cell at least)
+                    exp_b = h_low[d] + (np.arange(n_) + 0.5) * (h_high[d] - h_low[d]) / n_
+                    slack = 1.5 * float(np.max(np.abs(exp - exp_b)))
                     g = np.asarray(o1.get(ax))
-                    if g.shape != exp.shape or not np.allclose(g, exp, rtol=1e-12, atol=1e-12 * max(1.0, np.abs(exp).max())):
+                    if g.shape != exp.shape or not np.allclose(g, exp, rtol=1e-12, atol=slack + 1e-12 * max(1.0, np.abs(exp).max())):
                         probs.append(f"{ax} coordinates are not the cell centres of the level-{L} grid")
                 extra = [k for k in o1 if k not in want and k not in ("x", "y", "time", "dx", "slice_normal", "slice_pos", "grid_level")]
                 if extra:
